@@ -61,7 +61,7 @@ class StreamsFamily(ScenarioFamily):
                 events.append({"when": when, "do": "rst", "nth": r.randint(0, 3),
                                "code": r.choice([0, 2, 7, 8])})
             else:
-                events.append({"when": when, "do": "ping"})
+                events.append({"when": when, "do": "ping", "gate": r.random() < 0.5})
         ep = {"kind": "origin", "tls": tls,
               "h2": {"settings": st, "events": events,
                      "wu": r.choice(["eager", "eager", "tiny", "late"]),
